@@ -464,6 +464,21 @@ class PlanJoinTablesQuery:
         self.add_plan_step(step)
         self.step_stack.append(step)
 
+    @staticmethod
+    def get_and_conditions(condition):
+        # top-level conjuncts of a condition: only they hold on their own (a comparison under NOT, OR or inside a function doesn't)
+        conjuncts = []
+
+        def _collect(node):
+            if isinstance(node, BinaryOperation) and node.op.lower() == 'and':
+                for arg in node.args:
+                    _collect(arg)
+            elif node is not None:
+                conjuncts.append(node)
+
+        _collect(condition)
+        return conjuncts
+
     def join_condition_to_columns_map(self, model_table):
 
         columns_map = {}
@@ -496,7 +511,8 @@ class PlanJoinTablesQuery:
             # exclude condition
             node.args = [Constant(0), Constant(0)]
 
-        query_traversal(model_table.join_condition, _check_conditions)
+        for node in self.get_and_conditions(model_table.join_condition):
+            _check_conditions(node)
         return columns_map
 
     def get_filters_from_join_conditions(self, fetch_table):
@@ -534,7 +550,12 @@ class PlanJoinTablesQuery:
             elif table2 is not None:
                 data_conditions.append([arg1, arg2])
 
-        query_traversal(fetch_table.join_condition, _check_conditions)
+        for node in self.get_and_conditions(fetch_table.join_condition):
+            if isinstance(node, BinaryOperation):
+                _check_conditions(node)
+            else:
+                # NOT, BETWEEN, function ...
+                binary_ops.add(type(node).__name__)
 
         binary_ops.discard('and')
         if len(binary_ops) > 0:
